@@ -224,6 +224,21 @@ class Run:
         return EXIT_VIOLATION if self.violation_count else EXIT_OK
 
 
+def raised_in_library(ex) -> bool:
+    """True when the innermost frame of the exception's traceback is library code (under the repository's
+    src directory): the library let a foreign exception escape while an oracle was exercising it.  An
+    exception whose innermost frame is harness code is a harness defect and must surface as an internal error."""
+    tb = ex.__traceback__
+    last = None
+    while tb is not None:
+        last = tb
+        tb = tb.tb_next
+    if last is None:
+        return False
+    fn = last.tb_frame.f_code.co_filename
+    return os.path.abspath(fn).startswith(os.path.abspath(_deps.REPO_SRC) + os.sep)
+
+
 def jsonable(o):
     """Best-effort conversion of outcomes / numbers for replay files."""
     if isinstance(o, float):
